@@ -77,9 +77,18 @@ def run_history(grp):
         n = 0
         for q1 in qs:
             for q2 in qs:
+              # mut = 1: the caller edits the first result in place before looking up again, as BuildAssembly does (trim_large_overhangs,
+              # discard_start / discard_end); a lookup must not hand out state that such an edit can reach
+              for mut in (0, 1):
                 ia = IndexedAssembly("in", scaffolds=[Scaffold("s", rows)])
                 try:
-                    ia.find_overlaps(Fragment("s", q1[0], q1[1], 1))
+                    r1 = ia.find_overlaps(Fragment("s", q1[0], q1[1], 1))
+                    if mut and r1 is not None:
+                        r1.trim_large_overhangs(1)
+                        if len(r1.rows) > 1:
+                            r1.discard_start()
+                        if len(r1.rows) > 1:
+                            r1.discard_end()
                 except Exception:  # noqa: BLE001
                     pass
                 try:
@@ -88,7 +97,7 @@ def run_history(grp):
                     res = {"kind": "exc", "start": 0, "end": 0, "rows": [], "exc": type(e).__name__}
                 n += 1
                 if res != fresh[f"{q2[0]},{q2[1]}"] and len(out) < 50:
-                    out.append({"tid": 0, "cls": f"second-lookup-after-{q1[0]}-{q1[1]}", "rows": grp["rows"], "a": q2[0], "b": q2[1], "res": res})
+                    out.append({"tid": 0, "cls": f"second-lookup-after-{q1[0]}-{q1[1]}" + ("-edited" if mut else ""), "rows": grp["rows"], "a": q2[0], "b": q2[1], "res": res})
         return n
     r = C.guarded(go, None, 120.0)
     n = r[1] if r[0] == "ok" else 0
